@@ -76,7 +76,7 @@ def gen_case(rng):
         pool.update({max(1, w - 1), w, w + 1})
     for L in lens:
         pool.update({max(1, L - 1), L, L + 1})
-    pool = sorted(pool)
+    pool = sorted(x for x in pool if x >= 1)
     bufs = sorted(set(rng.sample(pool, min(len(pool), rng.randint(7, 11))) + [250_000, 1]))
     knobs = {
         "read_buf": rng.choice([1, 2, 3, 7, 16, 61, 64, 100, 4096, 8192]),
@@ -386,9 +386,13 @@ def _short(x):
 # ---------------------------------------------------------------------------
 
 
-def _long_fasta(path, L, width=60):
+def _long_fasta(path, L, width=60, narrow_first=False):
     line = (b"ACGTTGCAAC" * (width // 10 + 1))[:width] + b"\n"
     with open(path, "wb") as fh:
+        if narrow_first:
+            # a first record with one residue per line: anything the indexer
+            # calibrates on the first record is wrong for the next one
+            fh.write(b">narrow\n" + b"A\nC\nG\nT\n" * 30)
         fh.write(b">chr1 long\n")
         full, rest = divmod(L, width)
         blk = line * 1000
@@ -412,18 +416,19 @@ def measure_long(bprime, factor, what, root):
     from tola.fasta.stream import FastaStream
 
     L = bprime * factor
-    fa = Path(root) / f"long{L}.fa"
+    mixed = what == "index_mixed_width"
+    fa = Path(root) / f"long{L}{'m' if mixed else ''}.fa"
     if not fa.exists():
-        _long_fasta(fa, L)
+        _long_fasta(fa, L, width=250 if mixed else 60, narrow_first=mixed)
     idx = None
-    if what != "index":
+    if not what.startswith("index"):
         idx, _asm = index_mod.index_fasta_file(fa, 250_000)
     gc.collect()
     tracemalloc.start()
     try:
         base = tracemalloc.get_traced_memory()[0]
         tracemalloc.reset_peak()
-        if what == "index":
+        if what.startswith("index"):
             index_mod.index_fasta_file(fa, bprime)
         else:
             fi = index_mod.FastaIndex(fa, bprime)
@@ -449,7 +454,7 @@ def measure_long(bprime, factor, what, root):
     return peak
 
 
-LONG_WHATS = ["index", "stream_fwd", "stream_rev", "stream_gap"]
+LONG_WHATS = ["index", "stream_fwd", "stream_rev", "stream_gap", "index_mixed_width"]
 
 
 def long_case(bprime, what, run_seed, tier):
@@ -459,7 +464,7 @@ def long_case(bprime, what, run_seed, tier):
         big = measure_long(bprime, 400, what, root)
     finally:
         sandbox.remove(root)
-    abs_bound = 8 * bprime + 2 * 61 + 64 * 1024
+    abs_bound = 8 * bprime + 2 * 251 + 64 * 1024
     growth_bound = 4 * bprime + 32 * 1024
     v = None
     if big > abs_bound or (big - small) > growth_bound:
